@@ -56,6 +56,19 @@ CHECKS.update({
          "DESIGN.md §3 C19"),
 })
 
+CHECKS.update({
+ "C18": ("E4 process-level fault injection (strace inject, RLIMIT_FSIZE) + E3", "fault_enumeration",
+         "runtime fault injection: child process runs the real JSONFileStorage.Stop and is SIGKILLed with exactly k bytes written (RLIMIT_FSIZE=k + strace kill at the retry write), at the entry of every file syscall of the save, and given ENOSPC/EIO on every write; oracle = fresh load deep-equals S0 or S1",
+         "For seeded state pairs (S0 on disk or absent, S1 installed through the storage API, 0..200 routers/mappings with unicode/empty/long fields) every byte offset (all for small states, strided for large; all in thorough) and every file-mutating syscall entry of the save is a crash point; after each crash NewJSONFileStorage must succeed and reproduce S0 or S1 exactly; plus exact round trips without crash and a clean save after a failed one.",
+         "SIGKILL keeps the page cache: power-loss ordering (missing fsync) is not observable; crash points are at syscall/byte granularity of whatever file the implementation writes.",
+         "DESIGN.md §3 C18"),
+ "C20": ("E4 child processes running the real mycoria.New/Start/Stop + E5 race detector", "exploration",
+         "runtime monitor: real relay-only instances in child processes (Parse -> New -> Start -> peer over loopback TCP -> Stop) for seeded configurations and 1..k cycles; oracle on errors/panics, worker counts, listener, peer addresses, Stop result and goroutine-profile residue; Go race detector",
+         "Seeded valid relay-only configurations (universe/secret, lite, stub, services, friends, api listener, state file) are started as two routers in one child process, peered over loopback, stopped, and cycled; New/Start errors or panics, missing workers, a listener that does not accept, wrong peer addresses, Stop()==false, workers left, router goroutines alive after stop and worker panics on stderr are violations.",
+         "Port allocation and scheduling are real-time; watchdogs (30 s link wait, 8 min per child) make a run inconclusive, never a violation, except that a router goroutine still alive 10 s after Stop counts as left running.",
+         "DESIGN.md §3 C20"),
+})
+
 NOT_YET = "check not implemented yet in this revision of /verif (work in progress; see DESIGN.md §8)"
 
 def main():
